@@ -414,7 +414,9 @@ func (l *Lexer) decodeRune(pos int) (rune, int, error) {
 		return r, sz, errUnexpectedEndOfExpression
 	}
 
-	if r == utf8.RuneError {
+	if r == utf8.RuneError && sz == 1 {
+		// A width of 1 marks an invalid encoding; a correctly encoded U+FFFD
+		// is an ordinary character.
 		return r, sz, errInvalidRune
 	}
 
